@@ -1,6 +1,7 @@
 import ACModel.Props.C01
 import ACModel.Props.C05
 import ACModel.Proofs.Merge
+import ACModel.Proofs.Pipeline
 /-
   C03 — Grouping preserves each feature's order (contiguity, monotone transform)
 
@@ -163,6 +164,59 @@ theorem ordinal_groups_cover {α : Type} (labels : List α) (stats : List BaseDi
     (hlen : labels.length = stats.length) :
     (BaseDisc.findCommonModalities labels stats lenDf minFreq).flatten.Perm labels :=
   Merge.runsOf_flatten_perm _ _ (ordinal_groups_contiguous labels stats lenDf minFreq hlen)
+
+/-! ## Categorical features: the fitted leaders come in training target-rate order -/
+
+open Pipeline PipelineLemmas in
+/-- **`CategoricalDiscretizer` orders the modalities by non-decreasing training target rate, the
+    missing-value modality last** — for every sample: the fitted list of leaders is exactly the
+    stable sort by rate of the observed modalities (after the rare ones went to the default group),
+    with `str_nan` moved to the end. -/
+theorem cat_leaders_in_rate_order (g2 : GL) (rows3 : Rows) (toGroup : List Val) (strNan strDefault : String)
+    (r : CatResult) (hwf : g2.WF) (h : catSort g2 rows3 toGroup strNan strDefault = .ok r) :
+    ((r.order.lst.filter (· != Val.str strNan)).map (rateOf rows3)).Pairwise (· ≤ ·) ∧
+    (Val.str strNan ∈ r.order.lst → r.order.lst.getLast? = some (Val.str strNan)) := by
+  unfold catSort at h
+  dsimp only at h
+  split at h
+  · cases h
+  · split at h
+    · rename_i g3 hs
+      injection h with h
+      subst h
+      dsimp only
+      -- the observed modalities, sorted by rate (stable), are duplicate free
+      have hnd : (sortByKey (rateOf rows3) (GL.isort strLeVal (uniques rows3))).Nodup :=
+        nodup_sortByKey _ _ (GL.nodup_isort (nodup_uniques rows3))
+      have hsorted : ((sortByKey (rateOf rows3) (GL.isort strLeVal (uniques rows3))).map (rateOf rows3)).Pairwise (· ≤ ·) :=
+        List.pairwise_map.2 (sorted_sortByKey (rateOf rows3) _)
+      -- `sort_by` installs exactly the requested order
+      have hnd' : (if Val.str strNan ∈ sortByKey (rateOf rows3) (GL.isort strLeVal (uniques rows3)) then
+          (sortByKey (rateOf rows3) (GL.isort strLeVal (uniques rows3))).filter (· != Val.str strNan) ++ [Val.str strNan]
+          else sortByKey (rateOf rows3) (GL.isort strLeVal (uniques rows3))).Nodup := by
+        split
+        · rw [List.nodup_append]
+          refine ⟨hnd.sublist List.filter_sublist, by simp, ?_⟩
+          intro a ha b hb
+          simp only [List.mem_singleton] at hb
+          subst hb
+          intro e; subst e
+          simp at ha
+        · exact hnd
+      have heq := (GL.sortBy_eq ((GL.wf_iff _).1 hwf) hnd' hs).1
+      subst heq
+      dsimp only
+      split
+      · rename_i hin
+        refine ⟨?_, fun _ => by simp⟩
+        rw [List.filter_append]
+        have : List.filter (fun x => x != Val.str strNan) [Val.str strNan] = [] := by simp
+        rw [this, List.append_nil, List.filter_filter]
+        simp only [Bool.and_self]
+        exact (List.Pairwise.sublist (List.Sublist.map _ List.filter_sublist) hsorted)
+      · rename_i hnotin
+        refine ⟨List.Pairwise.sublist (List.Sublist.map _ List.filter_sublist) hsorted, fun hm => absurd hm hnotin⟩
+    · cases h
 
 /-! ## Non-vacuity -/
 example : StrictAsc [.num 1, .num 5, .inf] := by
